@@ -740,10 +740,16 @@ pid_t __wrap_waitpid(pid_t pid, int *status, int options)
   return pid;
 }
 
+pid_t __wrap_waitpid(pid_t pid, int *status, int options);
 int __wrap_kill(pid_t pid, int sig)
 {
   int e = fault(FK_KILL);
   if (e) { errno = e; return -1; }
+  if (pid < -1 && sk_proc_by_pid(-pid) >= 0) {
+    /* a process group: never legitimate for this library (C06) - flagged - but the group's leader does get the signal */
+    sk_mon(MON_KILL_BADPID, pid, sig);
+    pid = -pid;
+  }
   if (pid <= 0) { sk_mon(MON_KILL_BADPID, pid, sig); sk_logev(LK_KILL, pid, sig, 0, -ESRCH); errno = ESRCH; return -1; }
   int pi = sk_proc_by_pid(pid);
   if (pi < 0 || K->proc[pi].state == PS_REAPED) {
@@ -761,6 +767,21 @@ int __wrap_kill(pid_t pid, int sig)
   }
   return 0;
 }
+
+/* Every simulated child is the leader of a process group and of a session of its own (as after setsid()): a legal
+ * environment in which "the child's group" and "the child" are different targets. */
+pid_t __wrap_getpgid(pid_t pid)
+{
+  if (pid == 0) return 900;
+  int pi = sk_proc_by_pid(pid);
+  if (pi < 0 || K->proc[pi].state == PS_REAPED) { errno = ESRCH; return -1; }
+  return pid;
+}
+pid_t __wrap_getsid(pid_t pid) { return __wrap_getpgid(pid); }
+pid_t __wrap_getpgrp(void) { return 900; }
+int __wrap_killpg(pid_t pgrp, int sig) { return __wrap_kill(pgrp > 1 ? -pgrp : 0, sig); }
+pid_t __wrap_wait(int *status) { return __wrap_waitpid(-1, status, 0); }
+pid_t __wrap_wait4(pid_t pid, int *status, int options, void *ru) { (void) ru; return __wrap_waitpid(pid, status, options); }
 
 int __wrap_chdir(const char *path)
 {
